@@ -192,7 +192,7 @@ func c15Tuples(c *Check) []c15Tuple {
 }
 
 func checkC15(c *Check) {
-	c.Rule = "differential against Go's strings package: argument tuples over all strings of length 0-3 on {a, b, blank} plus 12 longer strings with overlaps, counts -2..4, slices of up to 4 elements with 4 separators, whitespace mixes; each tuple is compiled into a call of the bundled library and executed under bash (40 tuples per script, each result line tagged with its tuple index; an aborting script is re-run tuple by tuple); the quick tier always contains the empty-operand corners. Non-trivial = every tuple; distinct = function + arguments"
+	c.Rule = "differential against Go's strings package: argument tuples over all strings of length 0-3 on {a, b, blank} plus 12 longer strings with overlaps, counts -2..4, slices of up to 4 elements with 4 separators, whitespace mixes; each tuple is compiled into a call of the bundled library and executed under bash (40 tuples per script, each result line tagged with its tuple index; an aborting script is re-run tuple by tuple); every tuple runs twice, once in a script of one function and once in a seeded shuffle that mixes functions in one script; a mixed-script mismatch is reported as it stands (the script is the replay); the quick tier always contains the empty-operand corners. Non-trivial = every tuple; distinct = function + arguments"
 	c.Assumptions = []string{"Go's strings package is the oracle", "ASCII arguments", "Repeat with a negative count is excluded (Go panics)"}
 	runProbes(c, bashProbeJudge)
 	tuples := c15Tuples(c)
@@ -207,9 +207,22 @@ func checkC15(c *Check) {
 	jobs := []job{}
 	// group by function so that a batch exercises one function
 	sort.SliceStable(tuples, func(i, j int) bool { return tuples[i].fn < tuples[j].fn })
+	grouped := len(tuples)
+	// second pass: the same tuples in a seeded shuffle, functions mixed within one script, so that
+	// state left behind by one call (helper registers, result variables) meets the corner
+	// arguments of another function
+	{
+		mr := rand.New(rand.NewSource(c.Seed*15000017 + 22))
+		mixed := append([]c15Tuple{}, tuples...)
+		mr.Shuffle(len(mixed), func(i, j int) { mixed[i], mixed[j] = mixed[j], mixed[i] })
+		for i := range mixed {
+			mixed[i].key = "mixed/" + mixed[i].key
+		}
+		tuples = append(tuples, mixed...)
+	}
 	for lo := 0; lo < len(tuples); {
 		hi := lo
-		for hi < len(tuples) && hi-lo < batch && tuples[hi].fn == tuples[lo].fn {
+		for hi < len(tuples) && hi-lo < batch && (lo >= grouped || (hi < grouped && tuples[hi].fn == tuples[lo].fn)) {
 			hi++
 		}
 		jobs = append(jobs, job{lo, hi})
